@@ -10,7 +10,7 @@ import json, os, shutil, tempfile
 import common, streamlib as sl, atlasreplay as ar
 
 PID = "C20"
-AUTHS = ("digest", "none", "basic", "reject", "digest_unknown")
+AUTHS = ("digest", "none", "basic", "reject", "digest_unknown", "digest_bare")
 
 
 def usage_runs(b, v, root):
@@ -71,11 +71,11 @@ def run(tier):
     recs = list(envs.values())
     pool = sl.Pool(v.seed)
     root = tempfile.mkdtemp(prefix="c20-", dir=b.root)
-    keyways = ["env", "flags", "mixed", "mixed2"]
+    keyways = ["env", "flags", "mixed", "mixed2", "flagseq"]
     work = []
     for i, r in enumerate(recs):
         for var in range(2 if tier == "quick" else 8):
-            work.append((r, var, keyways[(i + var) % 4] if r["cli"] else "lib"))
+            work.append((r, var, keyways[(i + var) % 5] if r["cli"] else "lib"))
 
     def one(args):
         rec, var, kb = args
@@ -98,7 +98,7 @@ def run(tier):
             a = r.get("authorization")
             if a is None:
                 continue
-            if rec["auth"] in ("none", "basic", "digest_unknown"):
+            if rec["auth"] in ("none", "basic", "digest_unknown", "digest_bare"):
                 v.violation("credential material is sent without a Digest challenge from the server (server: %s)" % rec["auth"], rep)
                 break
             if not a.lower().startswith("digest "):
@@ -121,9 +121,9 @@ def run(tier):
     v.cov.update({"states": t.distinct + tstates, "transitions": t.generated, "traces_validated_against_impl": acc, "traces_rejected": len(rej),
                   "exhaustive": True, "environments": len(recs), "runs": len(work), "usage_and_help_runs": nusage, "server_behaviours": list(AUTHS), "key_supplied_by": keyways + ["library arguments"],
                   "encodings_scanned": sorted(ar.key_forms("x" * 8, "y").keys()),
-                  "rule": "every terminal state of AtlasMC over 5 server behaviours x fault kinds (status 401/403/404/500 echoing the request head, reset, body cut, "
-                          "redaction failure, output path failure) x positions, CLI with the key by flag / environment / mixed and library level; 4 key shapes (URL- "
-                          "and base64-sensitive characters, non-ASCII); verdict: no occurrence of the key in any encoding in any artefact; Authorization only as a "
+                  "rule": "every terminal state of AtlasMC over 6 server behaviours x fault kinds (status 401/403/404/500 echoing the request head, reset, body cut, "
+                          "redaction failure, output path failure) x positions, CLI with the key by flag (two-word and one-word form) / environment / mixed and library level; 5 key shapes (URL- "
+                          "and base64-sensitive characters, non-ASCII, regular-expression / format / shell metacharacters); verdict: no occurrence of the key in any encoding in any artefact; Authorization only as a "
                           "verified digest response and never without a Digest challenge",
                   "trusted_base": ["TLC", "lib/fakeatlas.py (records what crosses the network, verifies the digest)", "lib/atlasreplay.py"]})
     return v.finish()
